@@ -626,7 +626,7 @@ func handleBatchWriteRequestError(table string, req *dynamodb.WriteRequest, unpr
 // TransactWriteItems mock response for dynamodb
 func (fd *Client) TransactWriteItems(input *dynamodb.TransactWriteItemsInput) (*dynamodb.TransactWriteItemsOutput, error) {
 	if fd.forceFailureErr != nil {
-		return nil, ErrForcedFailure
+		return nil, fd.forceFailureErr
 	}
 
 	//TODO: Implement transact write
